@@ -22,6 +22,8 @@ func checkC13(w *World, r *Report) {
 	r.Rule("R13.3", "a slot is cleared only from its own table", 3)
 	r.Rule("R13.4", "close is identity-checked", 1)
 	r.Rule("R13.5", "session tables cover every identifier the wire format can carry", 2)
+	r.Rule("R13.6", "the client adopts a session identifier only from an error-free version answer", 1)
+	errGuardedFieldReads(w, r, "R13.6", "session-id", "a refused version request (BADVERSION, no free slot) carries identifier 0: the client then acts under the identifier of another live session, and from behind the same source address (one NAT / resolver) its packets are accepted into that session")
 
 	lst := w.Named("internal/streams/dns", "ServerDnsListener")
 	uc := w.Named("internal/streams/dns", "userConnection")
